@@ -278,6 +278,78 @@ DEPTH_FAMILIES_CSS = {
 }
 
 
+def structure_soup(rng, n):
+    """Random nestings of the scope-introducing and structural attributes (wx:if chains, wx:for with renamed
+    variables, slot: value receivers at any depth, template definitions and references, slots) with references to
+    every name in play: the analysis-time and generation-time scope stacks must agree on all of them."""
+    names = ["x", "y", "item", "index", "a"]
+    out = []
+
+    def refs():
+        return "".join("{{ %s }}" % rng.choice(names + ["%s.%s" % (rng.choice(names), rng.choice(names)), "[ , %s]" % rng.choice(names)]) for _ in range(rng.randrange(0, 4)))
+
+    def node(depth, in_chain):
+        tag = rng.choice(["a", "block", "c", "slot", "template", "v"])
+        attrs = []
+        r = rng.random()
+        if in_chain and r < 0.6:
+            attrs.append(rng.choice(['wx:elif="{{ %s }}"' % rng.choice(names), "wx:else"]))
+        elif r < 0.35:
+            attrs.append('wx:if="{{ %s }}"' % rng.choice(names))
+        if rng.random() < 0.3:
+            attrs.append('wx:for="{{ %s }}"' % rng.choice(names + ["[1, 2]", "2"]))
+            if rng.random() < 0.5:
+                attrs.append('wx:for-item="%s"' % rng.choice(names))
+            if rng.random() < 0.5:
+                attrs.append('wx:for-index="%s"' % rng.choice(names))
+            if rng.random() < 0.3:
+                attrs.append('wx:key="%s"' % rng.choice(["*this", "k", "x"]))
+        for _ in range(rng.randrange(0, 3)):
+            if rng.random() < 0.35:
+                nm = rng.choice(names)
+                attrs.append("slot:%s" % nm if rng.random() < 0.5 else 'slot:%s="%s"' % (nm, rng.choice(names)))
+        if rng.random() < 0.15:
+            attrs.append('slot="%s"' % rng.choice(["n", "{{ x }}"]))
+        if tag == "template":
+            attrs.append(rng.choice(['name="t"', 'is="t"', 'is="{{ x }}" data="{{ ...y, item }}"']))
+        if rng.random() < 0.3:
+            attrs.append('v="{{ %s }}"' % rng.choice(names))
+        rng.shuffle(attrs)
+        kids = ""
+        if depth > 0:
+            chain = False
+            for _ in range(rng.randrange(0, 4)):
+                k, chain = node(depth - 1, chain)
+                kids += k
+        body = refs() + kids + refs()
+        is_if = any(a.startswith("wx:if") or a.startswith("wx:elif") for a in attrs)
+        if rng.random() < 0.15 and not body:
+            return "<%s %s/>" % (tag, " ".join(attrs)), is_if
+        return "<%s %s>%s</%s>" % (tag, " ".join(attrs), body, tag), is_if
+
+    for _ in range(n):
+        s, chain = "", False
+        for _ in range(rng.randrange(1, 4)):
+            k, chain = node(3, chain)
+            s += k
+        out.append(s)
+    return out
+
+
+def entity_grammar():
+    """`&` followed by every kind of would-be entity body, in text and in an attribute value."""
+    heads = ["", "a", "A", "lt", "amp", "frac12", "#", "#x", "#X", "#1", "#x1F", "#99999999999", "#xFFFFFFFFF", "#-1", "#x-1"]
+    mids = ["", "问", "é", "😀", "\u00a0", "²", "Ⅷ", "٣", "_", "-", " ", "&", "<", "{{", "答;x"]
+    tails = [";", "", ";;", "; "]
+    out = []
+    for h in heads:
+        for m in mids:
+            for t in tails:
+                e = "&" + h + m + t
+                out.append("<a b=\"x%sy\" c=%s>p%sq</a>%s" % (e, e.replace(" ", ""), e, e))
+    return out
+
+
 def fit_exponent(points):
     """Least-squares slope of log(y) over log(n)."""
     pts = [(math.log(n), math.log(max(y, 1))) for n, y in points if n > 0]
@@ -345,6 +417,10 @@ def run(run, pid, tier, seed, replay=None):
                 add("css", "neighbourhood", m, {"opts": rng.choice(CSS_OPTION_SETS)})
         for t in literal_grammar():
             add("tmpl", "literal-grammar", t, {"path": "a"})
+        for t in entity_grammar():
+            add("tmpl", "entity-grammar", t, {"path": "a"})
+        for t in structure_soup(rng, 2500 if tier == "quick" else 40000):
+            add("tmpl", "structure-soup", t, {"path": "a"})
         k = 12 if tier == "quick" else 60
         for t in seeds_wxml:
             for m in dict_mutants(t, rng, DICT_WXML, k):
